@@ -216,7 +216,13 @@ func cmdRun(args []string) int {
 		rep := &harnessReport{Spec: h, Vacuity: map[string]string{}}
 		reports = append(reports, rep)
 		if fn == nil {
-			rep.Inconclusive = append(rep.Inconclusive, "harness function not found: "+h.Func)
+			why := "harness function not found: " + h.Func
+			for file, msg := range excludedHarness {
+				if strings.Contains(file, "/"+h.Pkg+"/") {
+					why = "harness " + h.Func + " left out: its file " + filepath.Base(file) + " does not compile against the current tree (" + msg + ")"
+				}
+			}
+			rep.Inconclusive = append(rep.Inconclusive, why)
 			continue
 		}
 		cfg := RunConfig{
